@@ -33,20 +33,35 @@ pub struct Guard {
 
 const CANARY: u8 = 0xC9;
 
+thread_local! {
+    /// (data_pages, at_end, base address): mappings are reused, mmap/munmap per call is expensive
+    static POOL: std::cell::RefCell<Vec<(usize, bool, usize)>> = std::cell::RefCell::new(Vec::new());
+}
+
 impl Guard {
     pub fn new(len: usize, at_end: bool) -> Guard {
         let data_pages = (len + PAGE - 1) / PAGE + 1;
         let total = (data_pages + 1) * PAGE;
         unsafe {
-            let base = libc::mmap(std::ptr::null_mut(), total, libc::PROT_READ | libc::PROT_WRITE, libc::MAP_PRIVATE | libc::MAP_ANONYMOUS, -1, 0) as *mut u8;
-            if base as isize == -1 {
-                panic!("HARNESS: mmap failed");
-            }
+            let reused = POOL.with(|p| {
+                let mut p = p.borrow_mut();
+                p.iter().position(|e| e.0 == data_pages && e.1 == at_end).map(|i| p.swap_remove(i).2)
+            });
             let (guard_off, acc_start, ptr_off) = if at_end { (data_pages * PAGE, 0, data_pages * PAGE - len) } else { (0, PAGE, PAGE) };
+            let base = match reused {
+                Some(b) => b as *mut u8,
+                None => {
+                    let base = libc::mmap(std::ptr::null_mut(), total, libc::PROT_READ | libc::PROT_WRITE, libc::MAP_PRIVATE | libc::MAP_ANONYMOUS, -1, 0) as *mut u8;
+                    if base as isize == -1 {
+                        panic!("HARNESS: mmap failed");
+                    }
+                    if libc::mprotect(base.add(guard_off) as *mut c_void, PAGE, libc::PROT_NONE) != 0 {
+                        panic!("HARNESS: mprotect failed");
+                    }
+                    base
+                }
+            };
             std::ptr::write_bytes(base.add(acc_start), CANARY, data_pages * PAGE);
-            if libc::mprotect(base.add(guard_off) as *mut c_void, PAGE, libc::PROT_NONE) != 0 {
-                panic!("HARNESS: mprotect failed");
-            }
             Guard { base, total, ptr: base.add(ptr_off), len, acc_start, acc_len: data_pages * PAGE }
         }
     }
@@ -75,8 +90,22 @@ impl Guard {
 
 impl Drop for Guard {
     fn drop(&mut self) {
-        unsafe {
-            libc::munmap(self.base as *mut c_void, self.total);
+        let data_pages = self.acc_len / PAGE;
+        let at_end = self.acc_start == 0;
+        let keep = data_pages <= 64
+            && POOL.with(|p| {
+                let mut p = p.borrow_mut();
+                if p.len() < 48 {
+                    p.push((data_pages, at_end, self.base as usize));
+                    true
+                } else {
+                    false
+                }
+            });
+        if !keep {
+            unsafe {
+                libc::munmap(self.base as *mut c_void, self.total);
+            }
         }
     }
 }
@@ -1132,7 +1161,7 @@ pub fn defs() -> Vec<CheckDef> {
     vec![CheckDef {
         id: "C17",
         level: "fault_enumeration",
-        runs_quick: 36_000,
+        runs_quick: 80_000,
         runs_thorough: 1_500_000,
         block: 128,
         gen: gen_c17,
